@@ -1101,6 +1101,7 @@ func (s *Specifier) UnmarshalText(b []byte) error {
 	if len(b) > len(s) {
 		return fmt.Errorf("specifier %v too long (%v > 16)", b, len(b))
 	}
+	*s = Specifier{} // the receiver may hold a previous (longer) value
 	copy(s[:], b)
 	return nil
 }
